@@ -26,9 +26,18 @@ def lowEq (loc int : Bool) (now : Int) (m m' : Store) : Prop :=
     | some r, some r' => (r.md.permitted loc int = true ∨ r'.md.permitted loc int = true) → r = r'
     | _, _ => False
 
-/-- Operations whose results the non-interference theorem compares (everything an interface can call). -/
-def readsOnly : Op → Prop
-  | .get _ | .exists_ _ | .query _ => True
-  | _ => False
+/-- Indistinguishable from time `t0` on: the visible key sets also change together (a record the interface may not
+    see must not reveal its expiry by disappearing earlier in one store than in the other). -/
+def lowEqFrom (loc int : Bool) (t0 : Int) (m m' : Store) : Prop := ∀ t, t0 ≤ t → lowEq loc int t m m'
+
+/-- Same result as a caller can observe it: query results as unordered streams. -/
+def sameOut : Out → Out → Prop
+  | .recs l, .recs l' => l.Perm l'
+  | a, b => a = b
+
+def sameOuts : List Out → List Out → Prop
+  | [], [] => True
+  | x :: xs, y :: ys => sameOut x y ∧ sameOuts xs ys
+  | _, _ => False
 
 end PB.Perm
